@@ -78,8 +78,10 @@ UNARY_T = ("exp log log1p expm1 sin cos tan tanh sqrt rsqrt erf erf_inv logistic
 
 
 class Interp:
-    def __init__(self, mode="real", while_bound=4, fold_transcendentals=False, uf_impl=None):
+    def __init__(self, mode="real", while_bound=4, fold_transcendentals=False, uf_impl=None, nonfinite_terms=False):
         self.o = RealOps() if mode == "real" else FPOps()
+        if nonfinite_terms and mode == "real":
+            self.o.nonfinite_terms = True
         self.o.fold_transcendentals = fold_transcendentals
         self.mode = mode
         self.side = []         # (kind, data) records: error_if predicates, unwinding conditions
